@@ -232,7 +232,7 @@ def design(chk):
     raise tlc.TLCError('sensitivity: ReadForStream without the queue re-check should violate InOrder')
   chk.cov['model_sensitivity_2'] = ('ReadForStream.tla without the second look at the queue under the reader lock '
                                     'violates InOrder')
-  cfg = muxlib.CFG % dict(limit=4, streams=2, ops=4, wire=2, dev=2, illegal='"AUTH"',
+  cfg = muxlib.CFG % dict(limit=4, streams=2, ops=4, wire=2, dev=2, illegal='"AUTH"', readlens='0, 1',
                           view='VIEW DesignView', emit='CONSTRAINT Constraint')
   res = tlc.must_pass(tlc.run('MCMux', cfg, gen={'MCMux.tla': muxlib.module([('a',), ('a', 'b', 'a')])},
                               coverage=True, heap='6g'), 'AdbMux design check')
@@ -243,10 +243,11 @@ def design(chk):
   chk.add_tlc('AdbMux design', res, action_counts={k: v[1] for k, v in cov.items()})
 
 
-def emit_replay(chk, pool, limit, ops, wire, dev, dataseqs, illegal='"AUTH"', streams=2):
+def emit_replay(chk, pool, limit, ops, wire, dev, dataseqs, illegal='"AUTH"', streams=2, readlens='0',
+                devseqs=(('a',), ('b',))):
   cfg = muxlib.CFG % dict(limit=limit, streams=streams, ops=ops, wire=wire, dev=dev, illegal=illegal, view='',
-                          emit='CONSTRAINT Constraint\nINVARIANT Emit')
-  res = tlc.must_pass(tlc.run('MCMux', cfg, gen={'MCMux.tla': muxlib.module(dataseqs)}, workers=8, heap='6g'),
+                          readlens=readlens, emit='CONSTRAINT Constraint\nINVARIANT Emit')
+  res = tlc.must_pass(tlc.run('MCMux', cfg, gen={'MCMux.tla': muxlib.module(dataseqs, devseqs)}, workers=8, heap='6g'),
                       'AdbMux emit')
   chunks = tlaval.split_prints(res.out, 'HIST', 56)
   outs = pool.map(muxlib.work, [(c, limit) for c in chunks])
@@ -288,10 +289,13 @@ def main(chk):
     if quick:
       emit_replay(chk, pool, 4, 3, 2, 2, [('a',), ('a', 'b', 'a')])
       emit_replay(chk, pool, 4, 4, 2, 1, [('a', 'b', 'a')], illegal='"SYNC"')
+      # read(n): partial reads of multi-symbol device messages, several messages buffered while a write waits for its ack
+      emit_replay(chk, pool, 4, 4, 3, 2, [('a',)], streams=1, readlens='0, 1, 2', devseqs=(('a', 'b'), ('a',)))
       dfs(chk, pool, 1, 4000)
     else:
       emit_replay(chk, pool, 4, 4, 2, 2, [('a',), ('a', 'b', 'a')])
       emit_replay(chk, pool, 5, 5, 1, 1, [('a', 'b', 'a', 'b', 'a')], illegal='"CNXN", "OPEN"', streams=3)
+      emit_replay(chk, pool, 4, 5, 3, 3, [('a',)], streams=2, readlens='0, 1, 2, 3', devseqs=(('a', 'b'), ('a',), ('b', 'b', 'a')))
       dfs(chk, pool, 2, 60000)
   chk.cov['rule'] = ('mux histories: host operations interleaved with device messages over 2-3 streams, enumerated by '
                      'TLC; schedules: every interleaving with <= 1 (quick) / 2 (thorough) preemptions of reader/writer '
